@@ -168,6 +168,67 @@ class Arity:
             return self.val(b, t["args"][1], depth + 1)
         raise Und("collection returned by %s" % path)
 
+    def reversed_chain(self, b, op, depth=0):
+        """walks the same chain as size(): True when the iteration order of the inputs is reversed an odd number of times,
+        False when it is kept, None when the chain is not one of the recognised forms"""
+        if depth > 14 or op["k"] == "const":
+            return None
+        p = op["p"]
+        l = p[0]
+        proj = [e for e in p[1:] if e != "*"]
+        ty = self._ty(b, l)
+        if not proj and _is_inputs_ty(ty) and "Iter<" not in ty and "Map<" not in ty and "Rev<" not in ty:
+            return False
+        if 1 <= l <= b.argc:
+            if b.kind == "closure" and l == 1 and proj:
+                return False if _is_inputs_ty(ty) or True else None
+            return None
+        if proj:
+            return None
+        try:
+            d = self._def(b, l)
+        except Und:
+            return None
+        if d[0] == "assign":
+            rv = d[1]["rv"]
+            if rv["k"] == "use":
+                return self.reversed_chain(b, rv["op"], depth + 1)
+            if rv["k"] == "ref":
+                return self.reversed_chain(b, {"k": "copy", "p": rv["p"]}, depth + 1)
+            return None
+        t = d[1]
+        f = t["fn"]
+        path = norm(f.get("path")) if f["k"] == "def" else None
+        if path == "std::iter::Iterator::rev":
+            x = self.reversed_chain(b, t["args"][0], depth + 1)
+            return None if x is None else (not x)
+        if path in SIZE_KEEPING or path in ITER_OF or path in COLLECT:
+            return self.reversed_chain(b, t["args"][0], depth + 1)
+        return None
+
+    def loop_driver_operand(self, b, bb):
+        """the iterator a `for` loop around bb runs over (None when bb is not in a recognisable loop)"""
+        if not b.in_cycle(bb):
+            return None
+        fwd = b.reachable_from(bb)
+        cyc = {x for x in fwd if bb in b.reachable_from(x)} | {bb}
+        found = []
+        for c in b.calls:
+            if c.bb in cyc and c.path == "std::iter::Iterator::next" and c.args:
+                dest = c.dest[0] if c.dest else None
+                for i in cyc:
+                    t = b.blocks[i]["term"]
+                    if t["k"] != "switch":
+                        continue
+                    tg = [x for _, x in t["targets"]] + [t["otherwise"]]
+                    if not any(x not in cyc for x in tg):
+                        continue
+                    for pt in b.operand_prov(t["discr"]):
+                        if pt[0] == "discr" and b.blocks[pt[1][0]]["stmts"][pt[1][1]]["rv"]["p"][0] == dest:
+                            found.append(c)
+        found = list({c.bb: c for c in found}.values())
+        return found[0].args[0] if len(found) == 1 else None
+
     # ---- how often a block runs per activation of its body
     def loop_mult(self, b, bb):
         if not b.in_cycle(bb):
@@ -274,6 +335,73 @@ def arity_rule(P, E, H):
                          "an observer that is never subscribed never completes, so the remove-and-test in sink_complete never empties the map "
                          "and the subscriber never gets `complete`" if more else
                          "an input is left without an observer (it is never observed, or taking from the empty pool panics)"), body=sb)
+        # every input gets an observer of its own: what a looped subscription hands over is TAKEN out of the pool
+        CONSUMING = ("std::vec::Vec::pop", "std::collections::VecDeque::pop_front", "std::collections::VecDeque::pop_back", "std::iter::Iterator::next",
+                     "std::vec::Vec::remove", "std::vec::Vec::swap_remove", "std::collections::VecDeque::remove")
+        WRAP = ("std::option::Option::unwrap", "std::option::Option::expect", "std::option::Option::unwrap_unchecked")
+        COPY = ("std::option::Option::cloned", "std::clone::Clone::clone", "std::option::Option::copied")
+        for (b, k) in subs:
+            if len(k.args) < 2:
+                continue
+            verdict, shared = None, False
+            cur, hops = k.args[1], 0
+            while cur is not None and hops < 10 and cur.get("k") in ("copy", "move") and len(cur["p"]) == 1:
+                hops += 1
+                try:
+                    d_ = A._def(b, cur["p"][0])
+                except Und:
+                    break
+                if d_[0] == "assign":
+                    rv_ = d_[1]["rv"]
+                    cur = rv_["op"] if rv_["k"] == "use" else None
+                    continue
+                kc = b.call_at(d_[2])
+                cur = None
+                if kc is None:
+                    break
+                if kc.path in CONSUMING or atom(kc) == "new_observer":
+                    verdict = "taken"
+                elif kc.path in COPY and kc.args:
+                    shared = True
+                    cur = kc.args[0]
+                elif kc.path in WRAP and kc.args:
+                    cur = kc.args[0]
+            looped_site = b.id != sb.id or b.in_cycle(k.bb)
+            if looped_site or shared:
+                r.instance((tr, "observer per input", "looped" if looped_site else "single"), True, "handed over: %s%s" % (verdict, " (copied)" if shared else ""))
+            if shared and verdict != "taken":
+                r.violate((tr, "inputs share one observer"),
+                          "%s subscribes an input with a COPY of a pooled observer instead of taking one out of the pool: several inputs end up behind "
+                          "one upstream key (the first completion removes it for all of them) while the other registered observers are never "
+                          "subscribed and never complete" % tr.split("::")[-1], body=b, line=k.line)
+        # inputs are subscribed in the order given: the source first, then the others front to back (cold inputs emit in subscription
+        # order; zip's tuple positions and amb's winner among cold inputs follow it)
+        single = [(b, k) for (b, k) in subs if b.id == sb.id and not b.in_cycle(k.bb)]
+        for (b, k) in subs:
+            if b.id == sb.id and not b.in_cycle(k.bb):
+                continue
+            drv = None
+            if b.id != sb.id:
+                for (role, kk, idx) in E.roles.get(b.id, []):
+                    if (role == "INLINE" or role.startswith("STD:")) and kk.path in CONSUME_EACH and kk.args:
+                        drv, drv_body, drv_bb = kk.args[0], kk.body, kk.bb
+            else:
+                d_ = A.loop_driver_operand(b, k.bb)
+                if d_ is not None:
+                    drv, drv_body, drv_bb = d_, b, k.bb
+            if drv is None:
+                continue
+            rev = A.reversed_chain(drv_body, drv)
+            r.instance((tr, "input order"), rev is not None, "others subscribed %s" % {None: "in an order not decided", False: "front to back", True: "back to front"}[rev])
+            if rev:
+                r.violate((tr, "inputs subscribed in reverse"),
+                          "%s subscribes its other inputs back to front: cold inputs then play in the wrong order (zip's tuple positions, amb's winner, "
+                          "merge's output order follow the subscription order)" % tr.split("::")[-1], body=b, line=k.line)
+            if single and drv_body.id == sb.id:
+                dom = sb.dominators()
+                if not any(sk.bb in dom[drv_bb] for (_, sk) in single):
+                    r.violate((tr, "source not subscribed first"),
+                              "%s subscribes its other inputs before the source it was applied to" % tr.split("::")[-1], body=sb, line=k.line)
         # per-input queues (zip): a Vec of queues allocated in the per-subscribe closure
         try:
             Q = None
